@@ -44,6 +44,16 @@ def verify(seed):
         race = '-race ' if 'needs `-race`' in demo or '-race' in (re.search(r'go test[^\n]*', demo) or [''])[0] else ''
         open(os.path.join(wt, dpath), 'w').write(demo)
         cmd = f"go test {race}-vet=off -count=1 -run '{runre}' {pkg}"
+        am = json.load(open(os.path.join(seed, 'agent_meta.json'))) if os.path.exists(os.path.join(seed, 'agent_meta.json')) else {}
+        if '-modfile' in (am.get('demo_cmd') or ''):
+            # client packages: cgo-only HID dependency replaced by a pure-Go stand-in through an alternate go.mod (as symx/build.py does)
+            cm = f'/tmp/vs/clientmod_{sid}'; shutil.rmtree(cm, ignore_errors=True); os.makedirs(cm + '/hid')
+            hd = subprocess.run(['go', 'list', '-m', '-f', '{{.Dir}}', 'github.com/flynn/hid'], cwd=wt, env=ENV, capture_output=True, text=True).stdout.strip()
+            shutil.copy(hd + '/hid.go', cm + '/hid/hid.go'); os.chmod(cm + '/hid/hid.go', 0o644)
+            shutil.copy('/verif/tools/overlay/flynn_hid_nocgo.go', cm + '/hid/nocgo.go')
+            open(cm + '/hid/go.mod', 'w').write('module github.com/flynn/hid\n\ngo 1.12\n')
+            open(cm + '/go.mod', 'w').write(open(wt + '/go.mod').read() + f'\nreplace github.com/flynn/hid => {cm}/hid\n'); shutil.copy(wt + '/go.sum', cm + '/go.sum')
+            cmd = f"CGO_ENABLED=0 GOFLAGS='-mod=mod -modfile={cm}/go.mod' " + cmd
         res['demo_cmd'] = cmd
         rc0, out0 = sh(cmd, wt); res['demo_passes_without_change'] = rc0 == 0
         if rc0 != 0: res['demo_without_output'] = out0[-1500:]
